@@ -55,9 +55,46 @@ func (t *Topic) Peers(ctx context.Context) ([]peer.ID, error) {
 	return append([]peer.ID{}, t.PeerList...), nil
 }
 
-func (t *Topic) WatchPeers(ctx context.Context) (<-chan events.Event, error) { return t.PeersCh, nil }
+// WatchPeers / WatchMessages honour the contract of the real adapters: the
+// returned channel is closed when the context ends.
+func (t *Topic) WatchPeers(ctx context.Context) (<-chan events.Event, error) {
+	out := make(chan events.Event, 8)
+	go func() {
+		defer close(out)
+		for {
+			select {
+			case <-ctx.Done():
+				return
+			case e := <-t.PeersCh:
+				select {
+				case out <- e:
+				case <-ctx.Done():
+					return
+				}
+			}
+		}
+	}()
+	return out, nil
+}
+
 func (t *Topic) WatchMessages(ctx context.Context) (<-chan *iface.EventPubSubMessage, error) {
-	return t.MsgCh, nil
+	out := make(chan *iface.EventPubSubMessage, 8)
+	go func() {
+		defer close(out)
+		for {
+			select {
+			case <-ctx.Done():
+				return
+			case m := <-t.MsgCh:
+				select {
+				case out <- m:
+				case <-ctx.Done():
+					return
+				}
+			}
+		}
+	}()
+	return out, nil
 }
 func (t *Topic) Topic() string { return t.name }
 
